@@ -68,11 +68,16 @@ def make_dataset(conv, shape, variant):
             # connectivity stored with the element dimension last: the *_dimension attributes name the grids
             'edgeT': dict(supply=('edge_node',), transposed=True),
             'edgefaceT': dict(supply=('edge_face',), transposed=True, fill='attr'),
+            # the mesh names an edge-node table that is not in the dataset (dropped with its variables): no edge grid
+            'dangling': dict(),
         }[mode]
         ds = builders.ugrid(mesh, **kw)
+        if mode == 'dangling':
+            ds['mesh'].attrs['edge_node_connectivity'] = 'edge_node_that_was_dropped'
+            ds['mesh'].attrs['edge_face_connectivity'] = 'edge_face_that_was_dropped'
         nodes, faces = builders.MESHES[mesh]
         exp = {'face': (len(faces),), 'node': (len(nodes),)}
-        if mode != 'noedge':
+        if mode not in ('noedge', 'dangling'):
             exp['edge'] = (len(builders.mesh_edges(faces)[0]),)
         return ds, UGrid(ds), exp
     raise ValueError(conv)
@@ -155,6 +160,14 @@ def body(ctx, conv, shape, variant, kind, part, data_first=False):
         ctx.check(same(row_major(comps, eshape), n), 'linear order is row-major')
         back = convention.ravel_index(idx)
         ctx.check(same(back, n), 'ravel_index(wind_index(n)) == n')
+        # the deprecated spelling shares the guarantee, on every grid kind
+        import warnings
+        with warnings.catch_warnings():
+            warnings.simplefilter('ignore')
+            old = convention.unravel_index(n, kind_obj)
+        k_old, comps_old = split_native(conv, old)
+        ctx.check((k_old is None or k_old == kind_obj) and len(comps_old) == len(comps) and And(*[same(x, y) for x, y in zip(comps_old, comps)]),
+                  'the deprecated alias unravel_index(n, grid_kind) is wind_index(n, grid_kind)')
         return
 
     if part == 'ravel':
@@ -193,6 +206,7 @@ def cases(tier):
     meshes = ['tq', 'tqp', 'fan', 'tri'] if tier == 'quick' else list(builders.MESHES)
     for mesh in meshes:
         configs.append(('ugrid', mesh, 'noedge', ['face', 'node']))
+        configs.append(('ugrid', mesh, 'dangling', ['face', 'node']))
         configs.append(('ugrid', mesh, 'edgedim', ['face', 'node', 'edge']))
         configs.append(('ugrid', mesh, 'edgeimplied', ['face', 'node', 'edge']))
         if mesh not in ('tri', 'qqq', 'fan'):
